@@ -287,7 +287,8 @@ theorem close_proceeds_distributed (e : Env) (hw : WfEnv e) (s s' : St) (a : Auc
     (s'.burned - s.burned) + (s'.bank.get .collector .debt - s.bank.get .collector .debt)
       + (s'.bank.get .keeper .debt - s.bank.get .keeper .debt)
       + (s'.bank.get .initiator .debt - s.bank.get .initiator .debt)
-      + (s'.bank.get .pool .debt - s.bank.get .pool .debt) + (s'.booked - s.booked) = e.target ∧
+      + (s'.bank.get .pool .debt - s.bank.get .pool .debt) + (s'.bank.get .lendres .debt - s.bank.get .lendres .debt)
+      + (s'.booked - s.booked) = e.target ∧
     s'.bank.get .owner .coll - s.bank.get .owner .coll = e.coll0 - s'.recv := by
   unfold bidE at h
   split at h
@@ -306,6 +307,19 @@ theorem close_proceeds_distributed (e : Env) (hw : WfEnv e) (s s' : St) (a : Auc
       · have := m7 (by simpa using hcl)
         rw [this] at hc; cases hc
     · cases h
+
+/-- **second-generation lend close, the split** (`liquidate.go:721-813`): of the target handed over by the auction module the
+debt pool keeps `target − penalty − reserve interest`, the lend reserve receives `penalty + reserve interest`, the bridge asset of a
+cross-pool borrow returns to the pool the collateral was lent to; no collateral moves, nothing is burned, no fee is booked. -/
+theorem lend_close_split (e : Env) (s s3 : St) (hk : e.kind = .lend) (h : distribute e s = .ok s3) :
+    s3.bank.get .auction .debt = s.bank.get .auction .debt - e.target ∧
+    s3.bank.get .pool .debt = s.bank.get .pool .debt + e.target - e.lendPen - DutchV2.posPart e.lendInt ∧
+    s3.bank.get .lendres .debt = s.bank.get .lendres .debt + e.lendPen + DutchV2.posPart e.lendInt ∧
+    s3.bank.get .pool .transit = s.bank.get .pool .transit - DutchV2.posPart e.bridged ∧
+    s3.bank.get .poolIn .transit = s.bank.get .poolIn .transit + DutchV2.posPart e.bridged ∧
+    s3.bank.get .auction .transit = s.bank.get .auction .transit ∧
+    (∀ a, s3.bank.get a .coll = s.bank.get a .coll) ∧ s3.burned = s.burned ∧ s3.netFees = s.netFees ∧ s3.extFees = s.extFees :=
+  distribute_lend hk h
 
 /-- **custody**: after ANY sequence of operations (as in `bidders_pay_le_target_partial`), once the auction is closed the
 module account holds, of the collateral, exactly what does not belong to this auction, and of the debt denom exactly what
